@@ -176,6 +176,10 @@ class Engine(object):
     def arith(self, op, a, b, st: State, line=0):
         """Binary arithmetic with Python semantics (ints unbounded, true division -> float)."""
         if isinstance(op, (ast.BitAnd, ast.BitOr, ast.BitXor, ast.LShift, ast.RShift)):
+            if isinstance(a, VArr) and isinstance(b, VArr) and isinstance(op, (ast.BitAnd, ast.BitOr)) \
+                    and st.hmeta[a.obj]["kind"] == "bool" and st.hmeta[b.obj]["kind"] == "bool":
+                m = self.models.get("numpy.logical_and" if isinstance(op, ast.BitAnd) else "numpy.logical_or")
+                return m(self, st, [a, b], {}, line)[0][1].value  # element-wise on boolean arrays
             if isinstance(a, VBool) and isinstance(b, VBool) and not isinstance(op, (ast.LShift, ast.RShift)):
                 f = {ast.BitAnd: z3.And, ast.BitOr: z3.Or, ast.BitXor: z3.Xor}[type(op)]
                 return VBool(f(a.t, b.t))
@@ -565,4 +569,9 @@ class Engine(object):
         kind = "real" if isinstance(r, VReal) else ("int" if isinstance(r, VInt) else "bool")
         raw = r.t
         obj = self.new_obj(st, kind, None, "tmp", contents=z3.Lambda([j], raw))
+        if isinstance(a, VArr) and isinstance(b, VArr):
+            fa, fb = st.hmeta[a.obj].get("fftlen"), st.hmeta[b.obj].get("fftlen")
+            if fa is not None and fb is not None and self.entails(st, fa == fb):
+                st.hmeta[obj]["fftlen"] = fa  # product of two spectra of the same transform length
+                st.hmeta[obj]["dtype"] = "c8"
         return VArr(obj, z3.IntVal(0), z3.IntVal(1), arr.n)
